@@ -24,7 +24,9 @@ def _angle():
     k = st.integers(-8, 8)
     ulps = st.integers(-2, 2)
     special = st.tuples(k, ulps).map(lambda t: _nudge(t[0] * PI / 2, t[1]))
-    return st.one_of(S.fl(-1e3, 1e3), S.fl(-2 * PI, 2 * PI), special)
+    # also angles that have accumulated many turns (1e3 .. 1e12 rad): sin/cos of such arguments are still exact to an ulp
+    huge = st.tuples(S.logfl(1e3, 1e12), st.sampled_from([-1.0, 1.0])).map(lambda t: t[0] * t[1])
+    return st.one_of(S.fl(-1e3, 1e3), S.fl(-1e3, 1e3), S.fl(-2 * PI, 2 * PI), special, huge)
 
 
 def _nudge(x, n):
